@@ -52,7 +52,7 @@ def collapse_ties(t, cols):
 # C04
 # ------------------------------------------------------------------------------------------
 
-def c04(arrs, N, tmin, tmax, model, discrete=False, moves=None, must_die_out=False, names=None):
+def c04(arrs, N, tmin, tmax, model, discrete=False, moves=None, must_die_out=False, names=None, every_step=True):
     """arrs = [t, X1, X2, ...]; model in {'SIR','SIS','spec'}; moves: set of (from_idx,to_idx)
     legal single-node moves between the columns (continuous time)."""
     bad = []
@@ -67,7 +67,7 @@ def c04(arrs, N, tmin, tmax, model, discrete=False, moves=None, must_die_out=Fal
     if np.any(np.diff(t) < 0):
         bad.append(("order", "times decrease: %s" % t.tolist()))
     if discrete:
-        if not np.all(np.diff(t) == 1):
+        if every_step and not np.all(np.diff(t) == 1):
             bad.append(("step", "discrete times do not advance by one: %s" % t.tolist()))
         gap = tmax - tmin
         if gap != INF and float(gap).is_integer() and np.any(t > tmax):
@@ -239,7 +239,7 @@ def c09(si, G, tmin, I0, model, discrete=False, ties=False):
 # C10
 # ------------------------------------------------------------------------------------------
 
-def c10(si, arrs, G, tmin, statuses, legal, ties=False, subsets_max=4, query_extra=()):
+def c10(si, arrs, G, tmin, statuses, legal, ties=False, subsets_max=4, query_extra=(), stepwise=False):
     """si: full-data object; arrs: [t, cols in order of `statuses`] from the other return mode
     under the same choices (or None).  legal: set of (old,new) status moves."""
     bad = []
@@ -287,7 +287,16 @@ def c10(si, arrs, G, tmin, statuses, legal, ties=False, subsets_max=4, query_ext
         at = list(np.asarray(arrs[0]).tolist()); acols = [list(np.asarray(c).tolist()) for c in arrs[1:]]
         ct, ccols = collapse_ties(at, acols)
         want_cols = [[r[s] for r in rows] for s in statuses]
-        if ct != times or ccols != want_cols:
+        if stepwise:
+            # discrete time: the arrays have one row per step, the summary one per change; compare as step functions
+            def at(ts, cols, q):
+                k = max(i for i, a in enumerate(ts) if a <= q)
+                return [c[k] for c in cols]
+            grid = sorted(set(ct) | set(times))
+            same = all(at(ct, ccols, q) == at(times, want_cols, q) for q in grid) and set(times) <= set(ct)
+        else:
+            same = (ct == times and ccols == want_cols)
+        if not same:
             bad.append(("arrays", "arrays (t=%s, %s) differ from the summary of node histories (t=%s, %s)"
                         % (ct, ccols, times, want_cols)))
     # subsets
